@@ -2,7 +2,7 @@
 From Coq Require Import List NArith ZArith Bool.
 From SK Require Import lib.LGraph lib.Mono.
 From SK Require model.C06_Model model.C11_Model.
-From SK Require Import model.C03_Model model.C05_Model proof.C05_Proof proof.C05_Glue proof.C05_Pipe proof.C05_Prep proof.C05_Comp proof.C05_Main proof.C05_Order proof.C05_Sub proof.C05_Set proof.C05_Result proof.C05_AllStrat proof.C05_PrepOrder proof.C05_Final proof.C05_Default proof.C05_Rewrite proof.C05_Capstone.
+From SK Require Import model.C03_Model model.C05_Model proof.C05_Proof proof.C05_Glue proof.C05_Pipe proof.C05_Prep proof.C05_Comp proof.C05_Main proof.C05_Order proof.C05_Sub proof.C05_Set proof.C05_Result proof.C05_AllStrat proof.C05_PrepOrder proof.C05_Final proof.C05_Default proof.C05_Rewrite proof.C05_Capstone proof.C05_Refuted.
 From SK Require Import lib.C06_Spec proof.C06_Comp.
 From SK Require proof.C11_Dedup.
 From Coq Require Import Permutation.
@@ -278,3 +278,9 @@ Lemma thm_pipeline_checked_default :
     (forall T', In T' (glued_of strat host (prep_default inv tpl)) ->
        exists T, In T (glued_of strat host0 (prep_default inv tpl0)) /\ obs_eq (relabel (apply_map pi) T) T').
 Proof. intros strat Hst inv host0 host tpl0 tpl pi sg. exact (pipeline_checked_default strat inv host0 host tpl0 tpl pi sg Hst). Qed.
+
+Lemma thm_bt_equals_comp_explicit_path_refuted :
+  exists (host : hostg) (p : prepared),
+    p_flag p = true /\ raw_of 1%N host p <> [] /\
+    length (glued_of 1%N host p) = 2%nat /\ length (glued_of 2%N host p) = 4%nat.
+Proof. exact bt_explicit_path_refuted. Qed.
